@@ -4,8 +4,8 @@ TLA+: spec/LRU.tla (the object + call/linearise/return steps), spec/LRU_MC.tla (
 scenario emission, soundness of the linearisation device), spec/LRU_Trace.tla (validation of recorded
 call/return events of the real cache).  Harness: harness/cmd/lru (lru_seq, lru_conc) - performs and logs only.
 
- 1. TLC enumerates every sequential history of length L over 3 keys x capacity {1,2,3} (9 calls per step:
-    Get k, Put k fresh, Put k nil) and checks the model-level invariants; every complete history is a scenario.
+ 1. TLC enumerates every sequential history of length L (5 quick, 6 thorough) over 4 keys x capacity {1,2,3} (per key: Get, Put fresh,
+    Put nil), one representative per key renaming, and checks the model-level invariants; every complete history is a scenario.
  2. Every scenario is replayed on tls.NewLRUClientSessionCache; TLC validates every recorded call
     (result, identity of the returned pointer, len(map), list length) against LRU!Do.
  3. Thorough: TLC -simulate produces long random histories (also capacity 0 => default 64, 70 keys).
@@ -144,7 +144,8 @@ def run(ctx):
     vacuous = []        # needed spec branches that no recorded event matched (judged at the end, see _vacuity)
     rnd = random.Random(ctx.seed * 1000003 + 36)
     assumptions = [
-        "key names are uninterpreted by the cache (3 keys stand for any keys); values are compared by pointer identity",
+        "key names are uninterpreted by the cache: the exhaustive part enumerates histories up to renaming of keys (4 keys) and replays each "
+        "class under one seeded random renaming; values are compared by pointer identity",
         "the harness reads len(c.m) and c.q.Len() by reflection, sequentially (after every call / after joining all goroutines)",
         "concurrent schedules are those the Go scheduler produced (16 cores, optional seeded yields), not an exhaustive set; "
         "data-race freedom is the verdict of the Go race detector on those runs, not of TLC",
@@ -152,13 +153,29 @@ def run(ctx):
     ]
 
     # ------------------------------------------------------------------ 1. exhaustive sequential histories
-    L = 4 if q else 5
-    mc = ctx.tlc("LRU_MC", cfg=_cfg(ctx, "LRU_MC_run", "LRU_MC", MaxLen=L), workers=4 if q else 8, coverage=False, timeout=1500)
+    # every history of L calls over 4 keys x capacity {1,2,3}, one representative per class of key renamings (LRU_MC Canon = TRUE:
+    # keys are introduced in the order 1,2,3,4); 4 keys > capacity 3, so every capacity can fill up and evict after hits below capacity
+    L = 5 if q else 6
+    NK = 4
+    mc = ctx.tlc("LRU_MC", cfg=_cfg(ctx, "LRU_MC_run", "LRU_MC", MaxLen=L, Keys="{1, 2, 3, 4}", Canon="TRUE"), workers=4 if q else 8, coverage=False, timeout=1500)
     if mc.violated:
         raise vlib.Machinery("LRU_MC: model-level invariant %r violated - the specification contradicts itself" % mc.violated)
-    scen = [dict(s, id=i + 1) for i, s in enumerate(mc.tagged("SCN"))]
-    if len(scen) != 3 * 9 ** L:
-        raise vlib.Machinery("LRU_MC emitted %d scenarios, expected all %d histories" % (len(scen), 3 * 9 ** L))
+    growth = {0: 1}                 # number of key patterns of length L: each key <= (largest key so far) + 1, at most NK keys
+    for _ in range(L):
+        nxt = {}
+        for m, c in growth.items():
+            for k in range(1, min(m + 1, NK) + 1):
+                nxt[max(m, k)] = nxt.get(max(m, k), 0) + c
+        growth = nxt
+    expect = 3 * 3 ** L * sum(growth.values())
+    scen = []
+    for i, sc in enumerate(mc.tagged("SCN")):
+        # the representative is replayed under a random renaming of the keys (a history is a history: TLC judges the renamed one)
+        perm = list(range(1, NK + 1))
+        rnd.shuffle(perm)
+        scen.append({"id": i + 1, "cap": sc["cap"], "ops": [dict(o, k=perm[o["k"] - 1]) for o in sc["ops"]]})
+    if len(scen) != expect:
+        raise vlib.Machinery("LRU_MC emitted %d scenarios, expected all %d canonical histories" % (len(scen), expect))
     # soundness of the call / linearise / return device itself (all interleavings, 2 goroutines x 2 calls)
     mcc = ctx.tlc("LRU_MC", cfg=_cfg(ctx, "LRU_MCc_run", "LRU_MCc", Caps="{1}" if q else "{1, 2}", Keys="{1}" if q else "{1, 2}"), workers=8, timeout=1500)
     if mcc.violated:
@@ -176,8 +193,8 @@ def run(ctx):
     nexh = len(scen)
     sims = []
     # (keys, capacities, history length, simulated runs, Put(k, nil) included, histories kept per run)
-    for (keys, caps, ln, num, nilputs, keep) in ([("{1, 2, 3}", "{1, 2, 3}", 20, 30, True, 9)] if q else
-                                  [("{1, 2, 3}", "{1, 2, 3}", 40, 400, True, 9), ("{1, 2, 3, 4, 5}", "{2, 4}", 60, 150, True, 15),
+    for (keys, caps, ln, num, nilputs, keep) in ([("{1, 2, 3}", "{1, 2, 3}", 20, 20, True, 9), ("{1, 2, 3, 4, 5}", "{3, 4}", 30, 20, True, 15)] if q else
+                                  [("{1, 2, 3}", "{1, 2, 3}", 40, 400, True, 9), ("{1, 2, 3, 4, 5}", "{2, 3, 4}", 60, 200, True, 15),
                                    ("{%s}" % ", ".join(map(str, range(1, 71))), "{0, 64}", 400, 4, False, 10)]):
         cfgname = _cfg(ctx, "LRU_MC_sim%d" % len(sims), "LRU_MCsim", MaxLen=ln, Keys=keys, Caps=caps, NilPuts="TRUE" if nilputs else "FALSE")
         sm = ctx.tlc("LRU_MC", cfg=cfgname, simulate="num=%d" % num, depth=ln + 1, extra=["-seed", str(ctx.seed)], timeout=1500)
@@ -241,7 +258,7 @@ def run(ctx):
 
     _lap(ctx, "sequential reproduction")
     # ------------------------------------------------------------------ 4. concurrent executions under -race
-    shapes = [(3, 4, 3, 400)] if q else [(3, 4, 3, 4000), (2, 6, 2, 2000), (4, 5, 3, 1500), (6, 3, 4, 1000)]
+    shapes = [(3, 4, 3, 250), (3, 5, 4, 150)] if q else [(3, 4, 3, 4000), (2, 6, 2, 2000), (4, 5, 3, 1500), (6, 3, 4, 1000)]
     rounds = []
     for (nt, nops, nkeys, count) in shapes:
         for _ in range(count):
@@ -328,7 +345,8 @@ def run(ctx):
         "rule": "evaluations = recorded executions of the real cache judged by TLC (sequential scenarios + concurrent rounds); "
                 "distinct_nontrivial = sequential scenarios with at least one Put (all distinct histories) + concurrent rounds in which calls really overlapped",
         "exhaustive": True,
-        "exhaustive_scope": "all %d sequential histories of %d calls over 3 keys x capacity 1..3 (every prefix included); everything else is sampled" % (nexh, L),
+        "exhaustive_scope": "all %d sequential histories of %d calls over 4 keys x capacity 1..3 up to renaming of keys (every prefix included; each representative replayed "
+                            "under one random renaming); everything else is sampled" % (nexh, L),
         "sequential": {"history_length": L, "scenarios_exhaustive": nexh, "simulated": [dict(keys=k, caps=c, length=l, histories=n) for (k, c, l, n) in sims],
                        "calls_validated": seq_calls, "matched_by_branch": {a: cov.get(a, 0) for a in SEQ_COVER}, "rejected": len(rejected),
                        "rejection_signatures": {s: len(l) for s, l in groups.items()}},
